@@ -483,6 +483,10 @@ DERIV_EXTRA = ['INT t:[x,1]. t^2', 'INT t:[0,x]. t^2', 'INT t:[x,x^2]. t*a', 'IN
 ROOTS = [t % c for c in ('-4', '4', '-9', '-2', '2', '-1', '1/4', '-1/9', '-8') for t in ('sqrt(%s*x)', '(%s*x)^(1/2)', '(%s*x)^(3/2)', 'sqrt(%s*x*a)', 'sqrt(%s*x^2)', '(%s*x)^(1/3)', '1/sqrt(%s*x)', 'x*sqrt(%s*x)')]
 # even / odd powers of expressions changing sign on the box (interval arithmetic for powers of mixed-sign intervals)
 SQUARES = ['x^2', '(x-1)^2', '(x+1/2)^2', 'x^4', 'x^3', '(x-1)^3', '(2*x-1)^2', 'x^2*a', '(x-a)^2', '1/(x^2+1)', '(x^2-1)^2', 'abs(x)^2', 'x^(-2)']
+# products / quotients of two factors for every combination of sign patterns on the boxes (corner products of interval arithmetic)
+PRODUCTS = ['x*(x-1)', 'x*(x-3)', '(x+1)*(x-1)', '(x+3)*(x-1/2)', 'a*(x-1)', 'a*x', '(a-1)*(x-1)', '(x+3)*x', 'x^2*(x-1)', 'abs(x)*(x-1)', '(x-1)*abs(x)', '(x+3)*(x-4)',
+            '(x-4)*(x+3)', '(x-4)*(x-5)', 'a*(x-1)*x', '(x+3)/(x-4)', '(x-1)/(x+4)', 'a/(x-4)', '(x-1)/a', '(x+3)*(a-3)', '(1-a)*(x+1/2)', 'x*(x-1)*(x+1)']
+FIXED_CHUNK = 12
 # powers for ExpandPolynomial (square-and-multiply style slips show at exponents >= 5)
 EXPAND = ['(x+1)^%d', '(x-a)^%d', '(2*x+a)^%d * (x+1)', '(x^2+1)^%d']
 
@@ -903,7 +907,11 @@ def run_exprs(u, out):
     rnd = random.Random('c19e-%s-%s' % (seed, lo))
     twin = os.environ.get('VERIF_TWIN')
     from vlib.symx import call_with_budget, NonTermination
-    fixed = [_S['P'](t) for t in DERIV_EXTRA + ROOTS + SQUARES] if lo == 0 else []
+    # lo < 0: chunk -lo-1 of the fixed expressions (FIXED_CHUNK each), no generated ones
+    allfixed = DERIV_EXTRA + ROOTS + SQUARES + PRODUCTS
+    fixed = [_S['P'](t) for t in allfixed[(-lo - 1) * FIXED_CHUNK:(-lo) * FIXED_CHUNK]] if lo < 0 else []
+    if lo < 0:
+        n = min(n, len(fixed)) - len(fixed)     # replay passes k+1: stop after the k-th fixed expression
     for k in range(n + len(fixed)):
         e = fixed[k] if k < len(fixed) else gen_expr(rnd, 3, trans=(k % 2 == 1))      # every second expression uses transcendental functions
         rec = {'part': 'exprs', 'seed': seed, 'lo': lo, 'k': k}
@@ -1118,6 +1126,9 @@ def units(tier, seed):
     n = 300 if tier == 'quick' else 6000
     for lo in range(0, n, 20):
         us.append(('exprs', tier, seed, lo, 20))
+    nfixed = len(DERIV_EXTRA + ROOTS + SQUARES + PRODUCTS)
+    for c in range((nfixed + FIXED_CHUNK - 1) // FIXED_CHUNK):
+        us.append(('exprs', tier, seed, -c - 1, FIXED_CHUNK))
     random.Random(seed).shuffle(us)
     us.sort(key=lambda u: 0 if u[0] == 'rules' else 1)
     return us
